@@ -72,6 +72,36 @@ Find ==
     /\ pc' = "done"
     /\ UNCHANGED <<solvedBefore, total>>
 
+(***************************************************************************)
+(* The other write-backs of the pipeline, each as "filter some rows,        *)
+(* compute one value per selected row (the value carries the ghost origin   *)
+(* of the row it was computed from), write the values back":                *)
+(*   rule-based stage   : results carry the id, written to reactions[int(id)]*)
+(*                        (rule_based.py:169-171)                           *)
+(*   post-processing    : results carry the id, written through             *)
+(*                        key_index_map (balancing.py:149-164)              *)
+(*   confidence         : the filtered list holds references to the rows,   *)
+(*                        zip(filtered, scores) (confidence_prediction.py)  *)
+(* Sel is the set of rows a stage selects. The three routings are compared  *)
+(* with the positional mutant (k-th result into the k-th row of the batch). *)
+(***************************************************************************)
+Selected(Sel) == SelectSeq([j \in Rows |-> j], LAMBDA j : j \in Sel)
+\* values computed for the selected rows, in order, each tagged with id and origin
+Results(Sel) == [k \in 1..Len(Selected(Sel)) |-> [id |-> Selected(Sel)[k], origin |-> Selected(Sel)[k]]]
+ById(Sel) == [j \in Rows |-> IF \E k \in 1..Len(Results(Sel)) : Results(Sel)[k].id = j
+                              THEN (CHOOSE k \in 1..Len(Results(Sel)) : Results(Sel)[k].id = j) ELSE 0]
+WriteById(Sel) == [j \in Rows |-> IF ById(Sel)[j] = 0 THEN 0 ELSE Results(Sel)[ById(Sel)[j]].origin]
+WriteByReference(Sel) == [j \in Rows |->
+      IF \E k \in 1..Len(Selected(Sel)) : Selected(Sel)[k] = j
+      THEN Results(Sel)[CHOOSE k \in 1..Len(Selected(Sel)) : Selected(Sel)[k] = j].origin ELSE 0]
+WriteByPosition(Sel) == [j \in Rows |-> IF j <= Len(Results(Sel)) THEN Results(Sel)[j].origin ELSE 0]
+
+RoutedRight(w, Sel) == \A j \in Rows : w[j] = (IF j \in Sel THEN j ELSE 0)
+OtherWriteBacks ==
+    \A Sel \in SUBSET Rows :
+        /\ RoutedRight(IF UseZip THEN WriteByPosition(Sel) ELSE WriteById(Sel), Sel)      \* rule-based, post-processing
+        /\ RoutedRight(WriteByReference(Sel), Sel)                                        \* confidence
+
 Next == Find
 Spec == Init /\ [][Next]_vars
 
